@@ -17,13 +17,15 @@ func writeEvidence(c *Check, res *checkResult) {
 	a := c.Agg
 	wall := time.Since(c.Start).Seconds()
 	distinct, how := a.Distinct()
-	sitesHit := 0
-	var never []string
-	for i, s := range e.Report.Sites {
-		if s.ID < len(a.SiteHits) && a.SiteHits[s.ID] > 0 {
+	sitesHit, initOnly := 0, 0
+	never := []string{}
+	for _, s := range e.Report.Sites {
+		switch {
+		case s.ID < len(a.SiteHits) && a.SiteHits[s.ID] > 0:
 			sitesHit++
-		} else if len(never) < 40 {
-			_ = i
+		case s.ID < len(a.InitHits) && a.InitHits[s.ID] > 0:
+			initOnly++ // executed by package initialisation only: no caller can reach it
+		case len(never) < 60:
 			never = append(never, fmt.Sprintf("%s:%d %s(%s)", s.File, s.Line, s.Func, s.Kind))
 		}
 	}
@@ -68,6 +70,7 @@ func writeEvidence(c *Check, res *checkResult) {
 		"calls_that_panicked":                a.PanicCalls,
 		"yield_sites_instrumented":           len(e.Report.Sites),
 		"yield_sites_visited":                sitesHit,
+		"yield_sites_init_only":              initOnly,
 		"yield_sites_never_visited":          never,
 		"stub_operations_entered":            a.SyncOps,
 		"runs_by_policy":                     a.PolicyRuns,
@@ -80,6 +83,8 @@ func writeEvidence(c *Check, res *checkResult) {
 		"library_goroutines_leaked":          a.Leaked,
 		"pool_items_max":                     a.PoolItemsMax,
 		"corpus":                             c.CStats,
+		"corpus_growth":                      c.Grow,
+		"capacity_knobs":                     map[string]interface{}{"found": e.Report.Knobs, "variant": c.Knob},
 		"reference": map[string]interface{}{
 			"fresh_process_evaluations": c.Ref.FreshChecked, "order_disagreements": c.Ref.OrderDisagree, "fresh_disagreements": c.Ref.FreshDisagree, "excluded_inputs": c.Ref.ExcludedInputs, "process_killing_inputs": c.Ref.Crashers,
 		},
